@@ -95,6 +95,12 @@ def current_spec(rng, dev, o, kind, strength=None):
                     phases.append({nm: (I if nm == p_ else (-I if nm == q else 0.0)) for nm in names})
         m = len(phases) - 1
         return {"kind": "switch", "phases": phases, "times": [T * (j + 1) / (m + 1) for j in range(m)]}
+    if kind == "blip":
+        # constant except for a short pulse (three times the current) that covers two steps of a 300-step run
+        T = o["solve_time"]
+        pats = {2: [1, -1], 3: [3, -1, -2], 4: [2, 1, -4, 1]}[n]
+        base = {nm: I * p for nm, p in zip(names, pats)}
+        return {"kind": "switch", "phases": [base, {k_: 3.0 * v_ for k_, v_ in base.items()}, base], "times": [0.4 * T, 0.4 * T + T / 150.0]}
     if kind == "stair":
         # a slow staircase: 0.1 % steps
         T = o["solve_time"]
